@@ -36,6 +36,12 @@ fn split_words(line: &str) -> Vec<&str> {
 /// between two words either the original run of spaces is kept, or it is replaced by "\n" followed
 /// by the line's leading indent (the first word, if it is all whitespace).  Nothing else may change.
 fn oracle_plain(text: &str, w: usize, out: &str, fails: &mut Vec<(String, String)>) {
+    let (ok, pos) = is_rendering(text, out);
+    oracle_plain_rest(text, w, out, fails, ok, pos);
+}
+
+/// is `out` a rendering of `text` (see `oracle_plain`)? and where the comparison stopped
+fn is_rendering(text: &str, out: &str) -> (bool, usize) {
     let mut pos = 0usize;
     let mut ok = true;
     'outer: for line in text.split_inclusive('\n') {
@@ -55,6 +61,10 @@ fn oracle_plain(text: &str, w: usize, out: &str, fails: &mut Vec<(String, String
         }
     }
     if ok && pos != out.len() { ok = false; }
+    (ok, pos)
+}
+
+fn oracle_plain_rest(text: &str, w: usize, out: &str, fails: &mut Vec<(String, String)>, ok: bool, pos: usize) {
     if !ok {
         let class = if strip(text) != strip(out) { "words-changed" } else { "not-a-rendering-of-the-input" };
         fails.push((class.into(), format!("out={:?} (mismatch at byte {})", out, pos)));
@@ -202,6 +212,41 @@ pub fn run(o: &Opts) -> Report {
         rep.count("styled");
         reqs.push(req);
         impls.push(hex(out.as_bytes()));
+    }
+    // styled text as it is written in practice: a style opens right before a word (or at the start of a line, before
+    // its indent) and closes right after one; never inside a run of spaces. The visible text of the result must be a
+    // rendering of the visible text of the input - line breaks only in place of inter-word spaces, followed by THAT
+    // line's leading indent - exactly as for plain text (widths are not claimed for styled text: the first word of a
+    // styled piece is never moved to a new line)
+    for _ in 0..(if o.thorough() { 60_000 } else { 12_000 }) {
+        let mut full = String::new();
+        let nlines = 1 + rng.below(4);
+        for li in 0..nlines {
+            if rng.chance(1, 3) { full.push_str(*rng.pick(SGR)); }
+            for _ in 0..(if rng.chance(1, 2) { rng.below(5) } else { 0 }) { full.push(' '); }
+            let nwords = 1 + rng.below(7);
+            for wi in 0..nwords {
+                let word: String = (0..1 + rng.below(6)).map(|_| *rng.pick(&['a', 'b', 'x', 'é', '界', 'm'])).collect();
+                match rng.below(5) {
+                    0 => { full.push_str(*rng.pick(SGR)); full.push_str(&word); full.push_str("\x1b[0m"); }
+                    1 if word.chars().count() > 1 => { let cut = word.char_indices().nth(1).unwrap().0; full.push_str(&word[..cut]); full.push_str(*rng.pick(SGR)); full.push_str(&word[cut..]); }
+                    2 => { full.push_str(*rng.pick(SGR)); full.push_str(&word); }
+                    _ => full.push_str(&word),
+                }
+                if wi + 1 < nwords { for _ in 0..1 + rng.below(3) { full.push(' '); } }
+            }
+            if li + 1 < nlines || rng.chance(1, 4) { if rng.chance(1, 3) { full.push_str("\x1b[0m"); } full.push('\n'); }
+        }
+        let w = match rng.below(12) { 0 => usize::MAX, _ => rng.below(40) };
+        let f2 = full.clone();
+        let req = format!("swrap-words {} {}", hard_s(w), hex(full.as_bytes()));
+        let out = match catch_unwind(move || hook::styled_wrap(&f2, w)) { Ok(s) => s, Err(_) => { rep.oracle_fail("styled-wrap-panic", &req, "panicked"); continue; } };
+        let visible = |s: &str| -> String { let mut r = String::new(); let mut inesc = false; for c in s.chars() { if c == '\x1b' { inesc = true; } else if inesc { if c == 'm' { inesc = false; } } else { r.push(c); } } r };
+        let (vin, vout) = (visible(&full), visible(&out));
+        let (ok, pos) = is_rendering(vin.trim_end(), vout.trim_end());
+        if !ok { rep.oracle_fail("styled-visible-text-not-a-rendering-of-the-input", &req, &format!("input={full:?} width={w} out={out:?} visible_in={vin:?} visible_out={vout:?} (mismatch at byte {pos})")); }
+        rep.case(&req, out != full);
+        rep.count("styled_wordwise");
     }
     // public route: the same text as `about`, rendered by the real help machinery
     let mut pub_checked = 0u64;
